@@ -52,7 +52,9 @@ func (c *compiler) compileChange(achange *parse.Change) *Change {
 
 	ldots := mc.dots
 	rdots := rc.dots
-	connectDots(c.fset, ldots, rdots, rc.dotAssoc)
+	if err := connectDots(c.fset, ldots, rdots, rc.dotAssoc); err != nil {
+		c.errf(token.NoPos, "%v", err)
+	}
 
 	return &Change{
 		Name:     achange.Name, // TODO(abg): validate name
